@@ -50,7 +50,17 @@ def env_for(seed):
     return env
 
 
+INFO_TABLES = {}
+
+
 def call_worker(mode, payload, seed, args=(), timeout=600):
+    if mode in ("fresh", "freshbatch", "hist"):
+        names = set()
+        if "cfg" in payload:
+            names.add(payload["cfg"]["reaction"])
+        names |= {c["reaction"] for _, c in payload.get("cfgs", [])}
+        names |= {h["reaction"] for h in payload.get("histories", [])}
+        payload = dict(payload, info={n: INFO_TABLES[n] for n in names if n in INFO_TABLES})
     p = subprocess.run([PY, WORKER, mode, *args], input=json.dumps(payload), env=env_for(seed),
                        capture_output=True, text=True, timeout=timeout)
     lines = [l for l in p.stdout.splitlines() if l.startswith("{")]
@@ -325,27 +335,46 @@ class Fresh:
         self.cache = {}
         self.count = 0
 
-    def need(self, cfgs, seed, pool):
+    def need(self, cfgs, seed, pool, truly_fresh=False):
         todo = {}
         for c in cfgs:
             k = (ckey(c), seed)
             if k not in self.cache and k not in todo:
                 todo[k] = c
-        futs = {k: pool.submit(call_worker, "fresh", {"cfg": c}, seed, (), 300) for k, c in todo.items()}
-        for k, f in futs.items():
-            try:
+        if not todo:
+            return
+        if truly_fresh:
+            futs = {k: pool.submit(call_worker, "fresh", {"cfg": c}, seed, (), 300) for k, c in todo.items()}
+            for k, f in futs.items():
                 r = f.result()[-1]
+                self.store(k, r)
+            return
+        items = list(todo.items())
+        nw = max(1, min(NPROC, len(items) // 5))
+        chunks = [items[i::nw] for i in range(nw)]
+        chunks = [c for c in chunks if c]
+        futs = [pool.submit(call_worker, "freshbatch", {"cfgs": [[k[0], c] for k, c in ch]}, seed, (), 1200)
+                for ch in chunks]
+        for ch, f in zip(chunks, futs):
+            try:
+                rs = f.result()
             except Exception as e:  # noqa: BLE001
-                r = {"crash": str(e)[:200]}
-            self.cache[k] = r.get("digest") if "digest" in r else {"error": [["", "crash:" + str(r.get("crash"))[:200]]]}
-            self.count += 1
+                rs = [{"crash": str(e)[:200]}]
+            got = {r.get("key"): r for r in rs}
+            for k, _ in ch:
+                self.store(k, got.get(k[0], {"crash": "no result: " + str(rs[-1].get("crash"))[:200]}))
+
+    def store(self, k, r):
+        self.cache[k] = r["digest"] if r.get("digest") is not None else {"error": [["", "crash:" + str(r.get("crash"))[:200]]]}
+        self.count += 1
 
     def get(self, cfg, seed):
         return self.cache[(ckey(cfg), seed)]
 
 
 def run_histories(hists, seed, monitor, pool):
-    chunks = [hists[i::NPROC] for i in range(NPROC)]
+    nw = max(1, min(NPROC, len(hists) // 4))
+    chunks = [hists[i::nw] for i in range(nw)]
     chunks = [c for c in chunks if c]
     futs = [pool.submit(call_worker, "hist", {"histories": c, "monitor": monitor}, seed, (), 1500) for c in chunks]
     out = {}
@@ -406,6 +435,7 @@ def shrink(hist, seed, attr, info, fresh, pool, monitor_fn=None):
 def main_search(seed, n, maxops, workdir):
     rng = random.Random(1000003 * seed + 6)
     info = call_worker("info", {"reactions": NAMES}, REF_SEED)[-1]
+    INFO_TABLES.update({k: v for k, v in info.items() if isinstance(v, dict)})
     if "crash" in info:
         print(json.dumps({"evaluations": 0, "distinct": 0, "samples": [], "kinds": {},
                           "failures": [{"signature": "harness:info", "what": "worker failed: " + info["crash"][-300:],
@@ -436,15 +466,16 @@ def main_search(seed, n, maxops, workdir):
     coq, why = run_coq(hists, info, workdir)
     coq_checked = 0
     model_disagreements = []
+    predicts_impure = []
     if coq is not None:
         for h in hists:
             got = coq.get(h["id"])
             want = cfgs[h["id"]]
             if got is None or [g for g, _ in got] != want:
                 model_disagreements.append({"history": h, "coq": got, "python": want})
-            elif not all(ok for _, ok in got):
-                model_disagreements.append({"history": h, "coq": "toy model differs from toy spec", "python": None})
             else:
+                if not all(ok for _, ok in got):
+                    predicts_impure.append(h["id"])  # only possible when the observed skeleton is not well behaved
                 coq_checked += len(want)
                 cfgs[h["id"]] = [g for g, _ in got]  # the model's prediction is what is compared below
 
@@ -467,6 +498,18 @@ def main_search(seed, n, maxops, workdir):
                                      "what": "fresh-process model of one configuration depends on PYTHONHASHSEED (%d vs %d): %s: %s [%s]"
                                              % (s, REF_SEED, d[0], d[1], c["reaction"]),
                                      "case": {"kind": "seed", "cfg": c, "seeds": [REF_SEED, s]}})
+        # a sample of configurations additionally in truly fresh interpreters (one process per build)
+        pure = Fresh()
+        sample = list(uniq.values())[:: max(1, len(uniq) // (8 if n <= 60 else 40))]
+        pure.need(sample, REF_SEED, pool, truly_fresh=True)
+        for c in sample:
+            seed_cmp += 1
+            d = diff_digest(pure.get(c, REF_SEED), fresh.get(c, REF_SEED))
+            if d and not any(f["signature"] == "fresh-process:" + d[0] for f in failures):
+                failures.append({"signature": "fresh-process:" + d[0],
+                                 "what": "model built in a new interpreter differs from the one built in a forked child of an "
+                                         "interpreter that only imported ampform: %s: %s" % d,
+                                 "case": {"kind": "seed", "cfg": c, "seeds": [REF_SEED, REF_SEED], "truly_fresh": True}})
         # histories under every seed
         n_cmp = 0
         memo_fn_seen = {}
@@ -488,6 +531,15 @@ def main_search(seed, n, maxops, workdir):
                                              % (fi, attr, desc, h["reaction"], s, len(ops)),
                                      "case": {"kind": "history", "history": hmin, "hashseed": s, "attr": attr,
                                               "original_ops": h["ops"]}})
+                for f in r.get("formulates", []):
+                    for attr in ((f.get("digest") or {}).get("_ties") or []):
+                        sig = "order:tie:" + attr
+                        if not any(x["signature"] == sig for x in failures):
+                            failures.append({"signature": sig,
+                                             "what": "two keys of model.%s have the same sort key: the sorting converter "
+                                                     "leaves their order to insertion order" % attr,
+                                             "case": {"kind": "history", "history": {"id": 0, "reaction": h["reaction"], "ops": h["ops"]},
+                                                      "hashseed": s, "attr": attr, "tie": True}})
                 if s == 0:
                     for k, fn in r.get("memo_written", []):
                         sig = "memo-write:" + fn
@@ -530,6 +582,7 @@ def main_search(seed, n, maxops, workdir):
                   "memo_entries_seen(total,mutable)": memo_fn_seen},
         "coq_cases": coq_checked, "coq_unavailable": why,
         "model_disagreements": model_disagreements[:3],
+        "model_predicts_impurity": len(predicts_impure),
         "failures": failures,
     }
     print(json.dumps(out, default=str))
@@ -539,11 +592,18 @@ def main_replay(path):
     doc = json.load(open(path))
     case = doc["replay"]["case"]
     info = call_worker("info", {"reactions": NAMES}, REF_SEED)[-1]
+    INFO_TABLES.update({k: v for k, v in info.items() if isinstance(v, dict)})
     still = False
     detail = ""
     with ThreadPoolExecutor(max_workers=NPROC) as pool:
         fresh = Fresh()
-        if case["kind"] == "seed":
+        if case["kind"] == "seed" and case.get("truly_fresh"):
+            pure = Fresh()
+            pure.need([case["cfg"]], REF_SEED, pool, truly_fresh=True)
+            fresh.need([case["cfg"]], REF_SEED, pool)
+            d = diff_digest(pure.get(case["cfg"], REF_SEED), fresh.get(case["cfg"], REF_SEED))
+            still, detail = bool(d), str(d)
+        elif case["kind"] == "seed":
             for s in case["seeds"]:
                 fresh.need([case["cfg"]], s, pool)
             d = diff_digest(fresh.get(case["cfg"], case["seeds"][1]), fresh.get(case["cfg"], case["seeds"][0]))
@@ -554,7 +614,9 @@ def main_replay(path):
             fresh.need(cfgs, case["hashseed"], pool)
             r = run_histories([h], case["hashseed"], False, pool)[h["id"]]
             bad = mismatches(h, r, cfgs, fresh, case["hashseed"])
-            still, detail = bool(bad), str(bad[:2])
+            if case.get("tie"):
+                bad = [f for f in r.get("formulates", []) if case["attr"] in ((f.get("digest") or {}).get("_ties") or [])]
+            still, detail = bool(bad), str(bad[:2])[:300]
         elif case["kind"] == "memo":
             h = case["history"]
             r = run_histories([h], 0, True, pool)[h["id"]]
